@@ -478,6 +478,6 @@ LAWS = [
         rule='every documented name in lower, capitalised, first-letter-lower and swapped case x 4 argument lists, alone, +1 and under &: the outcome is #NAME? (other spelling = other function) or exactly that of the documented spelling - never a blank or a partial value'),
 ]
 
-LEVEL_TEXT = 'Hypothesis exploration of name resolution (any identifier-shaped name x any Python value; recording custom functions incl. shadowing built-ins; unknown names at 11 kinds of position) plus an exhaustive sweep of every documented function name.'
+LEVEL_TEXT = 'Hypothesis exploration of name resolution (any identifier-shaped name x any Python value; recording custom functions incl. shadowing built-ins; unknown names at 11 kinds of position; registration histories; one parser over hundreds of mostly failing evaluations) plus an exhaustive sweep of every documented function name.'
 LEVEL_NOTE = 'Trusted: the recording host functions and hx/gen_formula.py ref_eval for expected arguments.'
 TECHNIQUE = 'Hypothesis property testing with recording callbacks + exhaustive documented-name sweep'
